@@ -146,6 +146,8 @@ func waitReclaimed(s *NatSock, a *UDPAssocRec, within time.Duration) (closed tim
 type c14World struct {
 	*c03World
 	dns53  *udpTarget // a "DNS server": port 53
+	dns53a *udpTarget // the IPv4 one
+	dns53b *udpTarget // an IPv6 one
 	other  *udpTarget
 	other2 *udpTarget
 }
@@ -157,12 +159,17 @@ func newC14World(c *vk.Ctx, r *rand.Rand, natTimeout time.Duration) *c14World {
 	if w.dns53, err = startUDPTarget("dns53", net.IPv4(45, 68, byte(c.Batch), 53).To4(), 53); err != nil {
 		fatalf("dns53 target: %v", err)
 	}
+	w.dns53a = w.dns53
+	if w.dns53b, err = startUDPTarget("dns53-v6", net.ParseIP(fmt.Sprintf("2606:4700::68:%x", 0x5300+int(byte(c.Batch)))), 53); err != nil {
+		fatalf("dns53 v6 target: %v", err)
+	}
 	w.other, w.other2 = w.targets[0], w.targets[2]
 	return w
 }
 
 func (w *c14World) close() {
-	w.dns53.Stop()
+	w.dns53a.Stop()
+	w.dns53b.Stop()
 	w.c03World.close()
 }
 
@@ -198,6 +205,11 @@ func c14Expiry(c *vk.Ctx, r *rand.Rand) bool {
 				return
 			}
 			defer cl.Close()
+			// the DNS server of this client: the IPv4 or the IPv6 one
+			dns53 := w.dns53a
+			if cr.Intn(2) == 0 {
+				dns53 = w.dns53b
+			}
 			scen := pick(cr, []string{"non-dns-burst-then-idle", "single-non-dns", "dns-then-non-dns", "fast-close", "no-fast-close/reply-from-other-port-first", "no-fast-close/two-queries", "no-fast-close/non-dns-first", "dns-reply-races-second-datagram", "first-write-fails", "reply-write-to-client-fails", "chatty-target-silent-client", "datagram-in-the-reaping-window"})
 			c.Progress("C14 expiry client=%d scenario=%s timeout=%s", ci, scen, natTimeout)
 			var sends []c14Send
@@ -215,7 +227,7 @@ func c14Expiry(c *vk.Ctx, r *rand.Rand) bool {
 			expectFast := false
 			// scenarios that withhold DNS answers get a DNS server of their own (another address, port 53),
 			// so that concurrent clients do not release each other's answers
-			myDNS := w.dns53
+			myDNS := dns53
 			if strings.HasPrefix(scen, "no-fast-close/two") || scen == "dns-reply-races-second-datagram" {
 				t, err := startUDPTarget("dns53-private", net.IPv4(45, 68, byte(c.Batch), byte(100+ci)).To4(), 53)
 				if err != nil {
@@ -304,25 +316,25 @@ func c14Expiry(c *vk.Ctx, r *rand.Rand) bool {
 					c.Count("chatty_target_scenarios", 1)
 				}
 			case "dns-then-non-dns":
-				ok = send(w.dns53, 0) && send(w.other, 0)
+				ok = send(dns53, 0) && send(w.other, 0)
 			case "fast-close":
-				ok = send(w.dns53, 1) // the DNS server answers at once from port 53
+				ok = send(dns53, 1) // the DNS server answers at once from port 53
 				expectFast = true
 			case "no-fast-close/reply-from-other-port-first":
-				ok = send(w.dns53, 0)
+				ok = send(dns53, 0)
 				if ok && sock != nil {
 					// an answer from a non-53 port arrives first, then the real answer: no fast close
 					ua, _ := net.ResolveUDPAddr("udp", "203.0.113.77:"+strings.Split(sock.Local, ":")[len(strings.Split(sock.Local, ":"))-1])
 					w.other.Send(replyPayload(nextID(c.Batch), 1, 30), ua)
 					time.Sleep(20 * time.Millisecond)
-					w.dns53.Send(replyPayload(nextID(c.Batch), 1, 30), ua)
+					dns53.Send(replyPayload(nextID(c.Batch), 1, 30), ua)
 				}
 			case "no-fast-close/two-queries":
 				myDNS.SetHold(true)
 				ok = send(myDNS, 1) && send(myDNS, 1)
 				myDNS.SetHold(false)
 			case "no-fast-close/non-dns-first":
-				ok = send(w.other, 0) && send(w.dns53, 1)
+				ok = send(w.other, 0) && send(dns53, 1)
 			case "dns-reply-races-second-datagram":
 				// Forced interleaving (hook H2): the DNS answer is released exactly when the server has
 				// started to handle the client's SECOND datagram (it is inside SetReadDeadline for it).
@@ -450,7 +462,7 @@ func c14Expiry(c *vk.Ctx, r *rand.Rand) bool {
 					for _, e := range sock.Snap() {
 						lines = append(lines, fmt.Sprintf("%s %s dl=%v %s %s", e.T.Format("05.000"), e.Kind, e.DL.Sub(e.T).Round(time.Millisecond), e.Addr, e.Err))
 					}
-					c.Violation("C14/fast-close-did-not-reclaim-association", map[string]any{"closes": nClose, "removals_reported": nRem, "scenario": scen, "h2_log": lines, "client_got": cl.Count(), "dns53_received": w.dns53.Count(), "dns53_replies_sent": len(w.dns53.SentTo), "dns53_hold": w.dns53.hold, "dns53_held": len(w.dns53.held)})
+					c.Violation("C14/fast-close-did-not-reclaim-association", map[string]any{"closes": nClose, "removals_reported": nRem, "scenario": scen, "h2_log": lines, "client_got": cl.Count(), "dns53_received": dns53.Count(), "dns53_replies_sent": len(dns53.SentTo), "dns53_hold": dns53.hold, "dns53_held": len(dns53.held)})
 					results <- false
 					return
 				}
